@@ -128,6 +128,12 @@ def handle (j : Json) : Except String Json := do
     pure (Json.mkObj [("ok", match C03.readScript t with
       | some ds => .arr (ds.map tab).toArray
       | none => .null)])
+  | "readfk" =>
+    let t ← strF j "text"
+    pure (Json.mkObj [("ok", match C04.readFk t with
+      | some d => Json.mkObj [("src", jstr d.src), ("constraint", jopt d.constraint), ("src_cols", .arr (d.srcCols.map jstr).toArray),
+          ("dst", jstr d.dst), ("dst_cols", .arr (d.dstCols.map jstr).toArray), ("actions", jstr d.actions)]
+      | none => .null)])
   | "sql_refs" =>
     let d ← Codec.db (← j.getObjVal? "db")
     pure (Json.mkObj [("refs", .arr (d.refs.map fun r => encR (Sql.renderRefTop d r)).toArray)])
